@@ -194,7 +194,8 @@ def gen_value(tag, rnd):
     if tag == 'json':
         return json.dumps(rnd.choice([{'a': rnd.randrange(99)}, [1, rnd.randrange(9), 'x'], rnd.randrange(99), 'txt', {'n': [1.5, {}]}]))
     if tag == 'flba':
-        return bytes(rnd.randrange(256) for _ in range(5))
+        v = bytes(rnd.randrange(256) for _ in range(5))
+        return v[:4] + b'\x00' if rnd.random() < .1 else v
     raise KeyError(tag)
 
 
@@ -339,6 +340,8 @@ def _diagnose(W, diag, p, rows, mask, pages, dict_pool, spec):
     diag.setdefault('v2_multipage_nulls', False)   # a row group cut into >= 2 v2 pages, one of them holding a null
     diag.setdefault('v2_empty_values_mid', False)  # v2 PLAIN page without any value (0-byte value section) that is not the chunk's last page
     diag['nulls_in_file'] = diag.get('nulls_in_file', 0) + sum(mask)
+    if p['type'] == 'flba' and any(v is not None and bytes(v).endswith(b'\x00') for v in rows):
+        diag['flba_trailing_nul'] = True
     for pi, pg in enumerate(pages):
         n = pg.n
         prow = rows[pos:pos + n]
@@ -444,6 +447,8 @@ def features_of(group, p, diag):
     f['v2_multipage_nulls'] = bool(diag.get('v2_multipage_nulls'))
     f['v2_empty_values_mid'] = bool(diag.get('v2_empty_values_mid'))
     f['has_nulls'] = diag.get('nulls_in_file', 0) > 0
+    if p['type'] == 'flba':
+        f['flba_trailing_nul'] = bool(diag.get('flba_trailing_nul'))
     # the column is materialised as a pandas masked (nullable) array: int/bool kinds whose chunk statistics are
     # absent or report nulls (mirrors ParquetFile._dtypes; used only to key known findings, never by the oracle)
     f['masked'] = bool(TYPES[p['type']][5] in ('int', 'uint', 'bool') and p['optional'] and (
@@ -469,7 +474,8 @@ RUN_STYLES = ('auto', 'rle', 'rle1', 'bp', 'bp8', 'mixed', 'mixed_r')
 
 
 def enumerate_cases(tier):
-    thorough = tier == 'thorough'
+    extra = tier == 'thorough'
+    thorough = True          # the full width lattices are cheap enough for the quick tier too (forked decodes, no exec)
     cases = []
 
     def add(group, **kw):
@@ -564,6 +570,36 @@ def enumerate_cases(tier):
             for nulls in ('none', 'some'):
                 for v in (1, 2):
                     add(G_LAYOUT, type=tag, optional=True, nulls=nulls, stats=stats, v=v, rows=(12,), cuts=(5,))
+    if extra:
+        for tag in TYPES:                                   # every logical type x every null pattern x page cuts x encodings
+            for nulls in NULL_PATTERNS:
+                for cuts in ((), (1,), (1, 22), (11, 12)):
+                    for v in (1, 2):
+                        for enc in (('plain',) if tag == 'bool' else ('plain', 'dict', 'fallback')):
+                            if enc == 'fallback' and not cuts:
+                                continue
+                            add(G_TYPES, type=tag, optional=True, nulls=nulls, enc=enc, v=v, rows=(23,), cuts=cuts,
+                                codec='SNAPPY' if len(cuts) == 2 else 'UNCOMPRESSED',
+                                dict_name='RLE_DICTIONARY' if (v == 2 or len(cuts) == 1) else 'PLAIN_DICTIONARY')
+        for w in range(0, 33):                              # index widths x every run style x more value types x both names
+            for style in RUN_STYLES:
+                for v in (1, 2):
+                    for tag in ('double', 'flba', 'int32', 'date'):
+                        for optional in (False, True):
+                            add(G_DICT, type=tag, optional=optional, nulls='alt' if optional else 'none', enc='dict', width=w,
+                                dict_size=1 if w == 0 else min((1 << (w - 1)) + 1, 40), idx_runs=style, v=v, rows=(90, 7),
+                                cuts=(8, 64), dict_name='PLAIN_DICTIONARY' if v == 2 else 'RLE_DICTIONARY', codec='ZSTD')
+        for bits_tag, top in (('int64', 64), ('int32', 32)):  # delta: every width x shape x count class x version, 2 row groups
+            for w in range(0, top + 1):
+                for shape in shapes:
+                    for v in (1, 2):
+                        for rows, cuts in (((129,), ()), ((257, 33), (128,)), ((64, 65), (1, 33))):
+                            add(G_DELTA, type=bits_tag, enc='delta', width=w, delta=shape, v=v, rows=rows, cuts=cuts, codec='GZIP')
+        for codec in CODECS:                                 # codecs x flags x every logical type
+            for v, flag in ((1, 'absent'), (2, 'absent'), (2, 'true'), (2, 'false')):
+                for tag in TYPES:
+                    add(G_LAYOUT, type=tag, optional=True, nulls='runs', codec=codec, v=v, comp_flag=flag, rows=(40, 3),
+                        cuts=(13,))
     # --- G_UNSUP: constructs outside the supported set: the read must raise ---
     for v in (1, 2):
         add(G_UNSUP, type='double', enc='BYTE_STREAM_SPLIT', unsupported='BYTE_STREAM_SPLIT', v=v)
@@ -593,22 +629,8 @@ def snippet_for(built, must_raise, in_subprocess):
             "print('child exit code', p.returncode, out[-1] if out else p.stderr.decode(errors='replace')[-300:])\n" % inner)
 
 
-def evaluate(built, must_raise, in_subprocess, repo):
-    """-> (ok, what)."""
-    if in_subprocess:
-        import pickle
-        code = ("import sys\nsys.path.insert(0, %r)\n" % repo) + snippet_for(built, must_raise, False)
-        try:
-            pr = subprocess.run([sys.executable, '-c', code], capture_output=True, timeout=60)
-        except subprocess.TimeoutExpired:
-            return False, "decode did not finish in 60 s"
-        out = [l for l in pr.stdout.decode(errors='replace').splitlines() if l.startswith('RESULT=')]
-        if pr.returncode < 0:
-            return False, "interpreter died with signal %d" % -pr.returncode
-        if pr.returncode != 0 or not out:
-            return False, "child failed rc=%d: %s" % (pr.returncode, pr.stderr.decode(errors='replace')[-200:])
-        ok, what = json.loads(out[-1][7:])
-        return ok, what
+def evaluate(built, must_raise):
+    """-> (ok, what); runs in a forked child (see runtime.c15_assembly.resilient)."""
     import io
     import fastparquet
     try:
@@ -625,15 +647,33 @@ def _worker(args):
     batch, seed, repo = args
     if repo not in sys.path:
         sys.path.insert(0, repo)
-    out = []
-    for idx, group, p in batch:
+    import fastparquet  # noqa: imported before forking so that the children share it
+    from runtime.c15_assembly import resilient
+    diags = {}
+
+    def one(item):
+        idx, group, p = item
+        built = build_case(p, seed)                 # an exception here is an oracle problem
+        return built['diag'], evaluate(built, bool(p['unsupported']))
+
+    def guarded(item):
         try:
-            built = build_case(p, seed)
-        except Exception as e:                      # the oracle side failed: engine problem, not a violation
-            out.append((idx, None, None, "ENGINE: build failed %s: %s" % (type(e).__name__, e)))
-            continue
-        ok, what = evaluate(built, bool(p['unsupported']), risky(p), repo)
-        out.append((idx, built['diag'], ok, what))
+            diag, (ok, what) = one(item)
+        except AssertionError:
+            raise
+        except Exception as e:
+            raise AssertionError("build failed %s: %s" % (type(e).__name__, e))
+        return ok, (diag, what)
+
+    res = resilient(guarded, batch, isolate=lambda it: risky(it[2]))
+    out = []
+    for (idx, group, p), (ok, payload) in zip(batch, res):
+        if ok is None:
+            out.append((idx, None, None, payload))
+        elif isinstance(payload, tuple):
+            out.append((idx, payload[0], ok, payload[1]))
+        else:                                        # the child died: derive the features without decoding
+            out.append((idx, build_case(p, seed)['diag'], False, payload))
     return out
 
 
@@ -644,11 +684,11 @@ def run_bounded(ctx):
     ctx.note("spec.pqwrite self-test: %s" % st)
     cases = enumerate_cases(ctx.tier)
     rules = {
-        G_TYPES: "one single-column file per (logical type of %d, required/optional, page v1/v2, PLAIN/dictionary), 23 rows in 2 pages; thorough adds null patterns" % len(TYPES),
-        G_DICT: "dictionary pages + index pages: index bit width (quick: 18 classes incl. 0,1,8,9,24,25,31,32; thorough 0..32, width may exceed the minimum) x run mixture (RLE only, bit-packed only, alternating, greedy; thorough 7 styles) x v1/v2 x required/optional; dictionary fallback to PLAIN inside the chunk; RLE booleans",
-        G_DELTA: "DELTA_BINARY_PACKED: forced miniblock width (quick: 18 classes of 0..64 for INT64, 8 of 0..32 for INT32; thorough every width) x block shapes 128x4,128x1,256x2,256x8 x counts around miniblock/block multiples x v1/v2 x logical types; widths >= 29 in a subprocess",
-        G_LEVELS: "optional column: definition levels cut into runs by 7 styles (RLE maximal / one run per value / bit-packed / per-8 / alternating / greedy) x 8 null patterns x v1/v2, 3 pages with a 1-row page",
-        G_LAYOUT: "7 codecs x (v1, v2 flag absent/true/false) x 5 column kinds; row groups (1),(2),(17,1),(5,0,7),(8,8,8),(9,31) x page cuts; statistics none/null_count/minmax/full",
+        G_TYPES: "one single-column file per (logical type of %d, required/optional, page v1/v2, PLAIN/dictionary) x null patterns none/some/all/alternating, 23 rows in 2 pages; thorough: x 8 null patterns x 4 page cuts x dictionary fallback" % len(TYPES),
+        G_DICT: "dictionary pages + index pages: every index bit width 0..32 (width may exceed the minimum; dictionaries that NEED the width up to 9) x 7 run mixtures (RLE maximal, one run per value, one bit-packed run, per-8 bit-packed, alternating both orders, greedy) x v1/v2 x required/optional; dictionary fallback to PLAIN inside the chunk; RLE booleans; thorough: x 4 more value types, 2 row groups, 3 pages",
+        G_DELTA: "DELTA_BINARY_PACKED: every forced miniblock width 0..64 (INT64) / 0..32 (INT32) x block shapes 128x4,128x1,256x2,256x8 x counts around miniblock/block multiples x v1/v2 x logical types x optional; every decode in a forked child; thorough: x row-group/page splits",
+        G_LEVELS: "optional column: definition levels cut into runs by 7 styles x 8 null patterns x v1/v2 x (1 page | 3 pages with a 1-row page) x 4 column kinds",
+        G_LAYOUT: "7 codecs x (v1, v2 flag absent/true/false) x 5 column kinds; row groups (1),(2),(17,1),(5,0,7),(8,8,8),(9,31) x 5 page cuts; statistics none/null_count/minmax/full; thorough: codecs x flags x every logical type",
         G_UNSUP: "BYTE_STREAM_SPLIT, DELTA_LENGTH_BYTE_ARRAY value encodings and deprecated BIT_PACKED levels: the read must raise",
     }
     for g, r in rules.items():
